@@ -118,6 +118,26 @@ Fixpoint expect_in_use (before evs : list event) (outs : list out) : list out :=
   | _, _ => outs
   end.
 
+(* without annotations in the history the prediction is the updater model's own output *)
+Lemma in_use_nil_run h :
+  Forall (fun e => match e with InUse _ _ => False | _ => True end) h -> in_use h [] = [].
+Proof.
+  induction 1 as [|e r He Hr IH]; [reflexivity|].
+  destruct e; cbn [in_use]; try exact IH. destruct He.
+Qed.
+
+Lemma expect_in_use_id evs : forall before outs,
+  Forall (fun e => match e with InUse _ _ => False | _ => True end) (before ++ evs) ->
+  expect_in_use before evs outs = outs.
+Proof.
+  induction evs as [|e es IH]; intros before outs H; [destruct outs; reflexivity|].
+  destruct outs as [|o os]; [reflexivity|]. cbn [expect_in_use]. f_equal.
+  - destruct e; try reflexivity. destruct o; try reflexivity.
+    destruct (saved_is_current before); [|reflexivity].
+    rewrite in_use_nil_run; [reflexivity|]. now apply Forall_app in H as [H _].
+  - apply IH. now rewrite <- app_assoc.
+Qed.
+
 (* one run from state y0: ((code, first differing event), (final state, the model's outputs)) *)
 Definition run_verdict (tb : list (Z * config)) (y0 : sys) (h : list (event * obs))
   : (Z * Z) * (sys * list out) :=
